@@ -92,6 +92,30 @@ def run(run):
             rows2 = [sum((((rows[i] >> pp[j]) & 1) << j) for j in range(m)) for i in po]
             with guard(run, 'permuted context', [base.line]):
                 t = LCtx([objs[i] for i in po], [props[j] for j in pp], rows2)
+                # the same permutation carried out on a definition in place: a refused rename (name in use), renames to
+                # temporary names and back, moves into the new order
+                dd = base.ctx.definition()
+                if n > 1:
+                    try:
+                        dd.rename_object(objs[0], objs[1])
+                    except ValueError:
+                        pass
+                if m > 1:
+                    try:
+                        dd.rename_property(props[0], props[1])
+                    except ValueError:
+                        pass
+                for o in objs:
+                    dd.rename_object(o, 'tmp ' + o)
+                for o in objs:
+                    dd.rename_object('tmp ' + o, o)
+                for k_, i_ in enumerate(po):
+                    dd.move_object(objs[i_], k_)
+                for k_, j_ in enumerate(pp):
+                    dd.move_property(props[j_], k_)
+                if Context(*dd) != t.ctx:
+                    run.fail('context of a definition permuted in place (rename / move) differs from the permuted table',
+                             [dd.objects, dd.properties, dd.bools], [t.ctx.objects, t.ctx.properties, t.ctx.bools], [base.line, t.line], extra)
                 v = label_view(t, pairs)
             run.case(base.line + '|perm %r %r' % (po, pp), nt, {'context': base.line, 'transformation': 'rows %r columns %r' % (po, pp)})
             for k in ('concepts', 'covers', 'lower', 'joinmeet', 'relations'):
